@@ -161,11 +161,20 @@ def run(cx):
     if b:
         rets = cx.rets(b)
         ok = True
+        n_ok = 0
         for s, d in rets:
-            rt = cx.guarded(b, s.bb, '(self reversed)', True) is not None
-            isrev = find('(call *Curve2::reversed _)', d) is not None
-            if d[0] == 'agg' and d[1].endswith('Result::Ok') and rt != isrev:
-                ok = False
+            if not (d[0] == 'agg' and d[1].endswith('Result::Ok')):
+                continue
+            # two `Ok(..)` exits under if/else, or one exit fed by `let oriented = if self.reversed {..} else {..}`
+            for dbb, dv, g in cx.alts(b, s.data['rv']['ops'][0], s.bb, s.idx) if s.data.get('rv', {}).get('ops') else [(s.bb, dict(d[2:]).get('0'), cx.guards(b, s.bb))]:
+                n_ok += 1
+                g = list(g) + list(cx.guards(b, s.bb))        # literals at the alternative's definition and at the exit
+                rt = any(p and match('(self reversed)', a) is not None for a, p in g)
+                rf = any((not p) and match('(self reversed)', a) is not None for a, p in g)
+                isrev = find('(call *Curve2::reversed _)', dv) is not None
+                if not ((rt and isrev) or (rf and not isrev)):
+                    ok = False
+        ok = ok and n_ok == 2
         cx.ob('GUARD', 'OrientedCircles::get_full_curve', ok, 'the full curve is reversed exactly when the container is reversed', where=b.file)
     E.enc(cx, OC, ('circles', 'reversed'), constructors=[f'{OC}::create', f'{OC}::new'])
 
